@@ -95,12 +95,12 @@ def show(o):
 
 
 def case_of(o):
-    return {"id": o["id"], "files": o["files"], "name": o["name"], "ops": o["ops"]}
+    return {"id": o["id"], "files": o["files"], "name": o["name"], "ops": [{"op": r["op"], "n": r["n"]} for r in o["res"]]}
 
 
 def nontrivial(o):
     # the handle was opened and at least one Read returned bytes or one ReadDir returned entries
-    return any(r["data"] or r["ents"] for r in o["res"])
+    return any(r.get("data") or r.get("ents") for r in o["res"])
 
 
 def corruptions(ctx, allobs, seed):
